@@ -584,7 +584,13 @@ protected:
     // XXX: similar precision as the interval domain
     for (auto kv : e) {
       const variable_t &pivot = kv.second;
-      interval_t i = compute_residual(e, pivot) / interval_t(kv.first);
+      interval_t residual = compute_residual(e, pivot);
+      interval_t coef(kv.first);
+      interval_t i = residual / coef;
+      if (!(i * coef == residual)) {
+        // the quotient was rounded: no value of pivot is excluded
+        continue;
+      }
       if (auto k = i.singleton()) {
         add_univar_disequation(pivot, *k);
       }
